@@ -204,7 +204,7 @@ def _map_cyclic(x: numpy.ndarray, lbound: float, ubound: float) -> numpy.ndarray
             f"less than ubound ({ubound})."
         )
 
-    x = numpy.copy(x)
+    x = numpy.array(x, dtype=numpy.float64)
     x[x > ubound] = lbound + (x[x > ubound] - ubound) % (ubound - lbound)
     x[x < lbound] = ubound - (lbound - x[x < lbound]) % (ubound - lbound)
 
